@@ -10,6 +10,7 @@ import J2M.Render
 import J2M.Lex
 import J2M.Header
 import J2M.Cli
+import J2M.Converters
 namespace J2M.Codec
 open Lean (Json)
 
@@ -211,5 +212,12 @@ def decRenderCfg (j : J) (consts : J) : Except String RenderCfg := do
          blacklist := ← decStrs (← field consts "blacklist"),
          serInfo := serInfo,
          metadataFieldName := ← asStr (← field consts "metadataFieldName") }
+
+
+partial def encPVal : PVal → J
+  | .raw j => .arr #[.str "raw", encJsonV j]
+  | .parsed k _ => .arr #[.str "parsed", .str k]
+  | .list xs => .arr #[.str "list", .arr (xs.map encPVal).toArray]
+  | .dict kvs => .arr #[.str "dict", .arr (kvs.map (fun (k, v) => Lean.Json.arr #[.str k, encPVal v])).toArray]
 
 end J2M.Codec
